@@ -2177,3 +2177,36 @@ class ProductUnit(DelegationUnit):
 
 
 UNITS += [ProductUnit]
+
+
+class ChainCallUnit(IterUnit):
+    """chain(*iterables) is from_iterable(<the tuple of its arguments, in order>) - nothing else"""
+
+    modpath = IT
+    funcname = "Chain.__call__"
+
+    def __init__(self):
+        super().__init__()
+        self.name = self.qualname = "Chain.__call__"
+
+    class Self:
+        pass
+
+    def make_args(self, ip):
+        self.arity = ip.ctx.decide(4, "number-of-iterables")
+        self.args = [Sym(z3.Int(f"iterable_{i}"), SRC) for i in range(self.arity)]
+        self.me = ChainCallUnit.Self()
+        self.calls = []
+        return [self.me] + self.args, {}
+
+    def model_getattr(self, ip, obj, attr):
+        if obj is self.me and attr == "from_iterable":
+            return Builtin("from_iterable", lambda ip, x: (self.calls.append(x), ("generator", x))[1])
+        return super().model_getattr(ip, obj, attr)
+
+    def on_exit(self, ip, pre, exc, ret):
+        ok = exc is None and len(self.calls) == 1 and isinstance(self.calls[0], tuple) and len(self.calls[0]) == self.arity and all(a is b for a, b in zip(self.calls[0], self.args)) and isinstance(ret, tuple) and ret[0] == "generator" and ret[1] is self.calls[0]
+        ip.ctx.oblige("Chain.__call__/post:returns_from_iterable_of_the_tuple_of_its_arguments_in_order", z3.BoolVal(bool(ok)), "post")
+
+
+UNITS += [ChainCallUnit]
